@@ -194,6 +194,7 @@ def run_once(text: str, traj, ticks: int, inject=None, edit=None, user=None):
         rec["ticks"] = rig.k
         prog = rig.program()
         rec["repeatable_ids"] = {n.id for n in prog.get_all_nodes() if L.in_repeatable(n)}
+        rec["repeatable_labels"] = {n.name for n in prog.get_all_nodes() if L.in_repeatable(n) and type(n).__name__ == "MarkNode"}
         rec["method_ids"] = {n.id for n in prog.get_all_nodes()}
         rec["method_has_block"] = any(type(n).__name__ == "BlockNode" for n in prog.get_all_nodes())
         rec["block_tag"] = rig.tag("Block")
@@ -263,12 +264,29 @@ def method_part(rec, method_ids):
     return ev, marks, cmds, fin
 
 
-def untimed(ev, marks, cmds, repeatable):
+def untimed(part, repeatable, rep_labels):
+    """Untimed view of a method part. Lines in (and labels written from) Alarm / macro bodies legitimately run a
+    timing-dependent number of times within the horizon (an injected Block restarts Block Time, the base of thresholds,
+    and so shifts the phase of a re-arming Alarm): for them only 'ran at least once' is compared, and their momentary
+    state at the end of the horizon is not."""
     from collections import Counter
+    ev, marks, cmds, fin = part
     starts = Counter(e[2] for e in ev if e[1] == "started" and e[4] is True and e[2] not in repeatable)
     compl = Counter(e[2] for e in ev if e[1] == "completed" and e[4] is True and e[2] not in repeatable)
     rep_started = frozenset(e[2] for e in ev if e[1] == "started" and e[4] is True and e[2] in repeatable)
-    return starts, compl, rep_started, Counter(marks[-1] if marks else ())
+    last = marks[-1] if marks else ()
+    mk = Counter(m for m in last if m not in rep_labels)
+    rep_mk = frozenset(m for m in last if m in rep_labels)
+    fin_nonrep = tuple(frozenset(x for x in st if x not in repeatable) for st in fin)
+    return starts, compl, rep_started, mk, rep_mk, fin_nonrep
+
+
+def untimed_difference(ref, ref_part, got) -> str | None:
+    a = untimed(ref_part, ref["repeatable_ids"], ref["repeatable_labels"])
+    b = untimed(got, ref["repeatable_ids"], ref["repeatable_labels"])
+    names = ["starts", "completions", "repeatable lines reached", "marks", "marks from repeatable bodies (at least once)",
+             "final method state"]
+    return next((n for n, x, y in zip(names, a, b) if x != y), None)
 
 
 def injected_ids_shared(rec) -> bool:
@@ -406,12 +424,8 @@ def check_multi(case, pt, ref, ref_part, method_ids, H, res: Result, viol):
         if any_contention or (have_block and ref["method_has_block"]):
             res.count("differential_ambiguous_block_lock_contention")
         else:
-            rep = ref["repeatable_ids"]
-            a = untimed(ref_part[0], ref_part[1], ref_part[2], rep)
-            b = untimed(got[0], got[1], got[2], rep)
-            if a != b or ref_part[3] != got[3]:
-                what = "starts" if a[0] != b[0] else "completions" if a[1] != b[1] else \
-                    "repeatable lines reached" if a[2] != b[2] else "marks" if a[3] != b[3] else "final method state"
+            what = untimed_difference(ref, ref_part, got)
+            if what:
                 viol.append(("C14.injected_snippets_share_node_ids" if shared else "C14.method_lines_changed_by_injection",
                              f"{desc}: method-line {what} differ from the reference run (ref marks {ref_part[1][-1]}, got "
                              f"{got[1][-1]}; ref state {sorted(map(sorted, ref_part[3]))} got "
@@ -573,12 +587,8 @@ def check_case(case: dict, res: Result):
                 if lock_contention or (sn["kind"] == "block" and ref["method_has_block"]):
                     res.count("differential_ambiguous_block_lock_contention")
                 else:
-                    rep = ref["repeatable_ids"]
-                    a = untimed(ref_part[0], ref_part[1], ref_part[2], rep)
-                    b = untimed(got[0], got[1], got[2], rep)
-                    if a != b or ref_part[3] != got[3]:
-                        what = "starts" if a[0] != b[0] else "completions" if a[1] != b[1] else \
-                            "repeatable lines reached" if a[2] != b[2] else "marks" if a[3] != b[3] else "final method state"
+                    what = untimed_difference(ref, ref_part, got)
+                    if what:
                         stuck = sn["kind"] == "block" and injected_block_never_ended(rec) and rec["block_tag"] == "jblk"
                         viol.append(("C14.injected_block_never_ends" if stuck else "C14.method_lines_changed_by_injection",
                                      f"injected at tick {t} ({sn['kind']}): method-line {what} differ from the reference run "
